@@ -9,6 +9,8 @@ from hypothesis import strategies as st
 import vcommon, vbuild, treemodel, packlib, tarimg, sqfsimg
 
 KINDS = ["gen_dir", "gen_file", "t2s", "s2t", "rd_cat", "rd_unpack", "diff"]
+# rdsquashfs modes that print through stdio (offered to the checks that ask for them by name)
+STDIO_KINDS = ["rd_list", "rd_describe", "rd_stat"]
 PACKERS = ("gen_dir", "gen_file", "t2s")
 
 
@@ -207,7 +209,7 @@ def snapshot_tree(root, with_mtime=True):
     return h.hexdigest(), len(items)
 
 
-def run(ctx, rundir, env=None, preload=None, feed_chunk=0, drain_chunk=0, timeout=60, variant=None):
+def run(ctx, rundir, env=None, preload=None, feed_chunk=0, drain_chunk=0, timeout=60, variant=None, stdout_path=None):
     """execute the scenario once in rundir (fresh directory)"""
     case = ctx["case"]
     kind = case["kind"]
@@ -230,6 +232,9 @@ def run(ctx, rundir, env=None, preload=None, feed_chunk=0, drain_chunk=0, timeou
     elif kind == "rd_cat":
         cmd = [vcommon.tool(v, "rdsquashfs"), "-c", ctx["cat"], ctx["img"]]
         want_stdout = True
+    elif kind in STDIO_KINDS:
+        cmd = [vcommon.tool(v, "rdsquashfs")] + {"rd_list": ["-l", "/"], "rd_describe": ["-d"], "rd_stat": ["-s", "/"]}[kind] + [ctx["img"]]
+        want_stdout = True
     elif kind == "rd_unpack":
         out = os.path.join(rundir, "unp")
         os.mkdir(out)
@@ -246,8 +251,11 @@ def run(ctx, rundir, env=None, preload=None, feed_chunk=0, drain_chunk=0, timeou
     if preload:
         e["LD_PRELOAD"] = preload
     res = Outcome()
-    p = subprocess.Popen(cmd, stdin=subprocess.PIPE if stdin is not None else subprocess.DEVNULL, stdout=subprocess.PIPE, stderr=subprocess.PIPE,
+    sofh = open(stdout_path, "wb") if stdout_path else None     # e.g. /dev/full: every write to standard output fails with ENOSPC
+    p = subprocess.Popen(cmd, stdin=subprocess.PIPE if stdin is not None else subprocess.DEVNULL, stdout=sofh or subprocess.PIPE, stderr=subprocess.PIPE,
                          env=e, cwd=cwd, start_new_session=True)
+    if sofh:
+        sofh.close()
     outbuf = []
 
     def feeder():
@@ -266,6 +274,8 @@ def run(ctx, rundir, env=None, preload=None, feed_chunk=0, drain_chunk=0, timeou
                 pass
 
     def drainer():
+        if p.stdout is None:
+            return
         fd = p.stdout.fileno()
         while True:
             try:
